@@ -41,10 +41,10 @@ package web
 //@   at call Encode assert auth_before_encode: webAuthed
 
 // C13: an error from the result iteration (deadline, size cap, failed partition) must reach the caller of doQuery,
-// which turns it into a failed cache entry / HTTP 500; iterErr is the error rs.Iterate returned, even if discarded.
+// which turns it into a failed cache entry / HTTP 500; srcErr is the error rs.Iterate returned, even if discarded.
 //@ func (*handler).doQuery
 //@   modifies *
-//@   capture iterErr Iface = result 1 of call FlatRowSource.Iterate
-//@   ensures err_propagates: iterErr != nil ==> result1 != nil
+//@   capture srcErr Iface = result 1 of call FlatRowSource.Iterate
+//@   ensures err_propagates: srcErr != nil ==> result1 != nil
 //@   ensures query_err: queryErr != nil ==> result1 != nil
 //@   capture queryErr Iface = result 1 of call DB).Query
